@@ -1049,6 +1049,13 @@ func propTable() map[string]*PropSpec {
 		deep.Params["weights"] = 1
 		deep.RequireReach = []string{"C01.two_commits"}
 		q = append(q, deep)
+		// prefix 7: the Byzantine member led view 1 (one node committed there) and leads view 5: one symbolic NEW_VIEW, then
+		// it goes along with whatever the two locked nodes prepared
+		bl7 := mk(1, 7, 0, 1, 5, 0, 0, 3)
+		bl7.Name += "/byzfollow=1"
+		bl7.Params["byzfollow"] = 1
+		bl7.RequireReach = []string{"C01.some_commit"}
+		q = append(q, bl7)
 		// prefix 6: a node locked twice must vote with its latest lock (no forgery anywhere), then one symbolic COMMIT
 		locks := mk(2, 6, 0, 1, 2, 0, 0, 3)
 		locks.RequireReach = []string{"C01.two_commits"}
@@ -1056,6 +1063,7 @@ func propTable() map[string]*PropSpec {
 		lossy5 := mk(2, 5, 0, 1, 5, 0, 0, 3)
 		lossy5.Name += "/byzfollow=1"
 		lossy5.Params["byzfollow"] = 1
+		lossy5.RequireReach = []string{"C01.some_commit"}
 		q = append(q, lossy5)
 		q[2].RequireReach = []string{"C01.some_commit"}
 		th := append([]RunConfig{}, q...)
